@@ -7,7 +7,7 @@ FUNCS = ['Matrix_New', 'matrix_subscr', 'matrix_set_size',
          'matrix_div_generic', 'matrix_rem_generic']
 KINDS = ('index-reject', 'index-accept', 'index-address', 'valid-preserved',
          'size-assigned', 'constructor-postcondition', 'typecode-preserved',
-         'reject-exception', 'reject-clean', 'covered')
+         'reject-exception', 'reject-clean', 'covered', 'shape-rule')
 
 
 def tasks(tier, funcs=FUNCS):
